@@ -226,82 +226,102 @@ def instantiateFuel (cs : List ClassDef) : Nat → FVal → FVal
 def neededDef (defs : List AttrDef) (code vendor : Nat) : Option AttrDef :=
   (defs.reverse).find? (fun d => d.code == code && d.vendor == vendor)
 
+/-- One turn of the loop of `assign_attr_from_defs`: the AVP `a` is put where the
+    class's definitions say (or kept as an undeclared AVP). `recur t sub` assigns
+    a nested container of class `t` from the AVPs `sub`. `getv` is the value
+    getter (`getValue` partially applied); a scalar whose payload is malformed
+    becomes `None` (the `AvpDecodeError` is logged), any other exception propagates. -/
+def assignStep (getv : Ty → Bytes → R Value) (dict : DTree) (c : ClassDef) (recur : Nat → List Avp → R FVal)
+    (st : List (Nat × FVal) × List Avp) (a : Avp) : R (List (Nat × FVal) × List Avp) :=
+  let fields := st.1
+  let extra := st.2
+  match neededDef c.defs a.code a.vendor with
+  | some d =>
+    let cur := match fields.find? (fun p => p.1 == d.attr) with
+      | some p => p.2
+      | none => FVal.unset
+    let ety := match lookupDict dict a.code a.vendor with
+      | some e => Ty.ofTag e.ty
+      | none => Ty.untyped
+    match d.tclass with
+    | some t =>
+      -- `avp.value` of the dictionary's type, then iterated as AVPs
+      if ety == .grouped then
+        match decodeAvps a.payload 0 with
+        | .error _ => .error .avpDecode
+        | .ok sub =>
+          match recur t sub with
+          | .error e => .error e
+          | .ok o =>
+            match cur with
+            | .objs os => .ok (setField fields d.attr (.objs (os ++ [o])), extra)
+            | .list vs => .ok (setField fields d.attr (.objs (vs.map (fun v => FVal.scalar v) ++ [o])), extra)
+            | _ => .ok (setField fields d.attr o, extra)
+      else
+        -- value of a non-grouped AVP is not a list of AVPs: iterating an
+        -- int raises TypeError; iterating bytes/str yields items without
+        -- `.code` (AttributeError) unless empty
+        match getv ety a.payload with
+        | .error e => .error e
+        | .ok (.int _) => .error .typeError
+        | .ok (.f32 _) => .error .typeError
+        | .ok (.f64 _) => .error .typeError
+        | .ok (.time _) => .error .typeError
+        | .ok (.bytes b) =>
+          if b.isEmpty then
+            match recur t [] with
+            | .error e => .error e
+            | .ok o => .ok (setField fields d.attr o, extra)
+          else .error .attributeError
+        | .ok (.str b) =>
+          if b.isEmpty then
+            match recur t [] with
+            | .error e => .error e
+            | .ok o => .ok (setField fields d.attr o, extra)
+          else .error .attributeError
+        | .ok _ => .error .attributeError
+    | none =>
+      let v : R (Option Value) :=
+        match getv ety a.payload with
+        | .ok v => .ok (some v)
+        | .error .avpDecode => .ok none
+        | .error e => .error e
+      match v with
+      | .error e => .error e
+      | .ok ov =>
+        match cur with
+        | .list vs =>
+          -- a malformed element is appended as `None`; the model drops it
+          -- (generation skips `None` elements)
+          .ok (setField fields d.attr (.list (match ov with | some x => vs ++ [x] | none => vs)), extra)
+        | .objs os =>
+          .ok (setField fields d.attr (.objs (match ov with | some x => os ++ [FVal.scalar x] | none => os)), extra)
+        | _ =>
+          .ok (setField fields d.attr (match ov with | some x => .scalar x | none => .unset), extra)
+  | none =>
+    if c.additional ≠ 0 then .ok (fields, extra ++ [a]) else .ok (fields, extra)
+
+/-- the loop itself -/
+def assignLoop (step : List (Nat × FVal) × List Avp → Avp → R (List (Nat × FVal) × List Avp)) :
+    List Avp → List (Nat × FVal) × List Avp → R (List (Nat × FVal) × List Avp)
+  | [], st => .ok st
+  | a :: rest, st =>
+    match step st a with
+    | .error e => .error e
+    | .ok st' => assignLoop step rest st'
+
 /-- `assign_attr_from_defs(obj, avp_list)` for a fresh object of class `cls`;
-    returns the object. `getv` is the value getter (`getValue` partially
-    applied); a scalar whose payload is malformed becomes `None` (the
-    `AvpDecodeError` is logged), any other exception propagates. -/
+    returns the object. -/
 def assignFuel (getv : Ty → Bytes → R Value) (dict : DTree) (cs : List ClassDef) :
     Nat → Nat → List Avp → R FVal
   | 0, _, _ => .error .other
   | fuel + 1, cls, avps =>
     match findClass cs cls with
     | none => .error .other
-    | some c => do
-      let init : List (Nat × FVal) × List Avp := (initFields c, [])
-      let (fields, extra) ← avps.foldlM (init := init) fun (st : List (Nat × FVal) × List Avp) a =>
-        let (fields, extra) := st
-        match neededDef c.defs a.code a.vendor with
-        | some d =>
-          let cur := match fields.find? (fun p => p.1 == d.attr) with
-            | some p => p.2
-            | none => FVal.unset
-          let ety := match lookupDict dict a.code a.vendor with
-            | some e => Ty.ofTag e.ty
-            | none => Ty.untyped
-          match d.tclass with
-          | some t =>
-            -- `avp.value` of the dictionary's type, then iterated as AVPs
-            if ety == .grouped then
-              match decodeAvps a.payload 0 with
-              | .error _ => .error .avpDecode
-              | .ok sub => do
-                let o ← assignFuel getv dict cs fuel t sub
-                match cur with
-                | .objs os => pure (setField fields d.attr (.objs (os ++ [o])), extra)
-                | .list vs => pure (setField fields d.attr (.objs (vs.map (fun v => FVal.scalar v) ++ [o])), extra)
-                | _ => pure (setField fields d.attr o, extra)
-            else
-              -- value of a non-grouped AVP is not a list of AVPs: iterating an
-              -- int raises TypeError; iterating bytes/str yields items without
-              -- `.code` (AttributeError) unless empty
-              match getv ety a.payload with
-              | .error e => .error e
-              | .ok (.int _) => .error .typeError
-              | .ok (.f32 _) => .error .typeError
-              | .ok (.f64 _) => .error .typeError
-              | .ok (.time _) => .error .typeError
-              | .ok (.bytes b) =>
-                if b.isEmpty then do
-                  let o ← assignFuel getv dict cs fuel t []
-                  pure (setField fields d.attr o, extra)
-                else .error .attributeError
-              | .ok (.str b) =>
-                if b.isEmpty then do
-                  let o ← assignFuel getv dict cs fuel t []
-                  pure (setField fields d.attr o, extra)
-                else .error .attributeError
-              | .ok _ => .error .attributeError
-          | none =>
-            let v : R (Option Value) :=
-              match getv ety a.payload with
-              | .ok v => .ok (some v)
-              | .error .avpDecode => .ok none
-              | .error e => .error e
-            match v with
-            | .error e => .error e
-            | .ok ov =>
-              match cur with
-              | .list vs =>
-                -- a malformed element is appended as `None`; the model drops it
-                -- (generation skips `None` elements)
-                pure (setField fields d.attr (.list (match ov with | some x => vs ++ [x] | none => vs)), extra)
-              | .objs os =>
-                pure (setField fields d.attr (.objs (match ov with | some x => os ++ [FVal.scalar x] | none => os)), extra)
-              | _ =>
-                pure (setField fields d.attr (match ov with | some x => .scalar x | none => .unset), extra)
-        | none =>
-          if c.additional ≠ 0 then pure (fields, extra ++ [a]) else pure (fields, extra)
-      pure (FVal.obj cls fields extra)
+    | some c =>
+      match assignLoop (assignStep getv dict c (assignFuel getv dict cs fuel)) avps (initFields c, []) with
+      | .error e => .error e
+      | .ok (fields, extra) => .ok (FVal.obj cls fields extra)
 
 /-- `validate_message_avps(msg)`: codes of the required attributes that are
     `None` on a typed message with fields `fields`; `Avp.new` raises
